@@ -1,9 +1,36 @@
 import IxpeVerif.Num
-/-! Dispatcher of the hand-written models for the line-protocol driver. -/
+import IxpeVerif.Model.Livetime
+import IxpeVerif.Model.EventList
+/-! Dispatcher of the hand-written models for the line-protocol driver.  Integers travel in decimal. -/
 namespace Driver
+
+def ints (ws : List String) : List Int := ws.map String.toInt!
+def showInts (xs : List Int) : String := " ".intercalate (xs.map toString)
+
+/-- split `n x₁ … xₙ rest…` -/
+def takeN (ws : List String) : List String × List String :=
+  match ws with
+  | n :: rest => (rest.take n.toNat!, rest.drop n.toNat!)
+  | [] => ([], [])
+
+def rowsOf : List Int → List EvL.Row
+  | t :: s :: f :: g :: rest => ⟨t, s, f != 0, g.toNat⟩ :: rowsOf rest
+  | _ => []
 
 def step (ws : List String) : String :=
   match ws with
+  -- livetime <s0> <dead> <n> starts… <m> times…
+  | "livetime" :: s0 :: dead :: rest =>
+    let (starts, rest) := takeN rest
+    let (times, _) := takeN rest
+    showInts (Livetime.livetimeColumn s0.toInt! (ints starts) (ints times) dead.toInt!)
+  -- finalize <s0> <dead> <n> starts… <4m> (time src inFid tag)…   ->  tag livetime trg per kept row
+  | "finalize" :: s0 :: dead :: rest =>
+    let (starts, rest) := takeN rest
+    let (rows, _) := takeN rest
+    let out := EvL.finalize s0.toInt! dead.toInt! (ints starts) (rowsOf (ints rows))
+    showInts (out.flatMap fun o => [(o.row.tag : Int), o.livetime, (o.trg : Int)])
+  | ["split", t] => let r := EvL.splitTime t.toInt!; showInts [r.1, r.2]
   | _ => "bad-op"
 
 end Driver
